@@ -248,6 +248,11 @@ func (t *Trimmer) markKeptPart(ast *parser.Thrift, filename string) (ret bool) {
 		ret = true
 	}
 
+	// enums are always kept, so the includes leading to them must stay as well
+	if len(ast.Enums) > 0 {
+		ret = true
+	}
+
 	if !t.forceTrimming {
 		currentMap := t.marks[filename]
 		structs := make([]*parser.StructLike, 0, len(ast.Structs)+len(ast.Unions)+len(ast.Exceptions))
